@@ -170,6 +170,17 @@ func init() {
 			}
 			return (*Iface)(nil)
 		},
+		"os.Stat": func(e *Engine, fn *ssa.Function, a []Value) Value {
+			name := e.showStr(a[0])
+			if e.faultPoint("stat") {
+				return Tuple{(*Iface)(nil), nativeErr("stat " + name + ": no such file or directory")}
+			}
+			return Tuple{&Iface{T: fn.Signature.Results().At(0).Type(), V: &Native{Kind: "fileinfo", Data: name}}, (*Iface)(nil)}
+		},
+		"(io/fs.FileMode).IsRegular": func(e *Engine, _ *ssa.Function, a []Value) Value { return !e.faultPoint("notregular") },
+		"(io/fs.FileMode).IsDir":     func(e *Engine, _ *ssa.Function, a []Value) Value { return e.faultPoint("isdir") },
+		"(time.Time).After":          func(e *Engine, _ *ssa.Function, a []Value) Value { return e.faultPoint("newer") },
+		"(time.Time).Before":         func(e *Engine, _ *ssa.Function, a []Value) Value { return e.faultPoint("older") },
 		"(*os.File).Truncate": func(e *Engine, _ *ssa.Function, a []Value) Value {
 			e.env["truncated"] = fileName(a[0])
 			return (*Iface)(nil)
@@ -268,7 +279,14 @@ func CompileStubs() map[string]stubFn {
 		"(*text/template.Template).Execute": func(e *Engine, _ *ssa.Function, a []Value) Value { return (*Iface)(nil) },
 		"go/token.NewFileSet":               func(e *Engine, _ *ssa.Function, a []Value) Value { return dummy(e) },
 		"go/parser.ParseFile":               func(e *Engine, _ *ssa.Function, a []Value) Value { return Tuple{dummy(e), (*Iface)(nil)} },
-		"(*go/printer.Config).Fprint":       func(e *Engine, _ *ssa.Function, a []Value) Value { return (*Iface)(nil) },
-		"(*bytes.Buffer).WriteTo":           func(e *Engine, _ *ssa.Function, a []Value) Value { return Tuple{int64(0), (*Iface)(nil)} },
+		// the printer and WriteTo hand one chunk of (unmodelled) text to the destination and
+		// return the destination's error
+		"(*go/printer.Config).Fprint": func(e *Engine, _ *ssa.Function, a []Value) Value {
+			r := e.writeTo(a[1], "<formatted parser>")
+			return r.(Tuple)[1]
+		},
+		"(*bytes.Buffer).WriteTo": func(e *Engine, _ *ssa.Function, a []Value) Value {
+			return e.writeTo(a[1], "<buffer>")
+		},
 	}
 }
